@@ -19,8 +19,8 @@ type jsonVec struct {
 	HasEmpty  bool    `json:"hasempty"`
 	StringOpt bool    `json:"stringopt"`
 	// embedding scenarios (JsonFields)
-	Own     []string `json:"own"`
-	Embeds  []struct {
+	Own    []string `json:"own"`
+	Embeds []struct {
 		E   string `json:"e"`
 		Ptr bool   `json:"ptr"`
 	} `json:"embeds"`
@@ -32,13 +32,13 @@ type jsonVec struct {
 }
 
 type jsonCase struct {
-	Shape   *jShape `json:"shape,omitempty"`
-	VI      int     `json:"vi"`
-	Seed    int64   `json:"seed"`
-	Limit   int     `json:"limit"`
-	Ptr     bool    `json:"ptr,omitempty"`
-	Setting string  `json:"setting,omitempty"`
-	Doc     string  `json:"doc,omitempty"`
+	Shape   *jShape  `json:"shape,omitempty"`
+	VI      int      `json:"vi"`
+	Seed    int64    `json:"seed"`
+	Limit   int      `json:"limit"`
+	Ptr     bool     `json:"ptr,omitempty"`
+	Setting string   `json:"setting,omitempty"`
+	Doc     string   `json:"doc,omitempty"`
 	Docs    []string `json:"docs,omitempty"`
 	Scen    *jsonVec `json:"scenario,omitempty"`
 	Nils    int      `json:"nils,omitempty"`
@@ -140,7 +140,7 @@ func c01Value(c *Ctx, k jsonCase, v reflect.Value) {
 }
 
 // known findings of C01 (narrow predicates; see known_findings.json)
-func c01Finding(k jsonCase, v reflect.Value) string { return "" }
+func c01Finding(k jsonCase, v reflect.Value) string       { return "" }
 func c01FindingNoHTML(k jsonCase, v reflect.Value) string { return "" }
 
 func c01Vector(c *Ctx, raw stdjson.RawMessage) {
@@ -560,6 +560,12 @@ func c02Grammar(c *Ctx, gv *grammarVec, raw stdjson.RawMessage) {
 		docs = append(docs, string(liftDoc(gv.D, pick, 9+r.intn(12), 'x')))
 	} else if len(gv.C) > 0 {
 		docs = append(docs, docs[0]+string(liftDoc(gv.C, nil, 0, 'x'))) // the completion: a valid document
+	}
+	// every killing class appended (with the completion): near-valid documents that are not JSON
+	comp := string(liftDoc(gv.C, nil, 0, 'x'))
+	for _, kcls := range gv.K {
+		alts := classBytes[kcls]
+		docs = append(docs, docs[0]+string(alts[r.intn(len(alts))])+comp)
 	}
 	for _, doc := range docs {
 		for _, sh := range c02GrammarTargets {
